@@ -549,6 +549,7 @@ class Run:
         inputs = job.get("inputs", [])
         entry = job["entry"]
         vals = {}
+        whole = {}
         tail = []
         for s in p.get("trace", []):
             if s.get("stepType") != "assignment":
@@ -565,9 +566,15 @@ class Run:
                         for el in v.get("elements", []):
                             ev = el.get("value", {})
                             if "binary" in ev or "data" in ev:
-                                vals.setdefault("%s[%s]" % (lhs, el.get("index")), ev)
+                                whole.setdefault("%s[%s]" % (lhs, el.get("index")), ev)
             if fn and not lhs.startswith("__") and not fn.startswith("__CPROVER") and "data" in v:
                 tail.append("%s:%s %s=%s" % (fn, s.get("sourceLocation", {}).get("line"), lhs, v.get("data")))
+        # element-wise assignments (nondet per element) take precedence over the value printed at the array's declaration
+        norm = lambda k: re.sub(r"\[(\d+)l?\]", r"[\1]", k)
+        have = {norm(k) for k in vals}
+        for k, v in whole.items():
+            if norm(k) not in have:
+                vals[k] = v
         for k, v in vals.items():
             f["inputs"][k] = {"data": v.get("data"), "binary": v.get("binary"), "type": v.get("type")}
         f["trace_tail"] = tail[-40:]
